@@ -28,10 +28,10 @@ CLAIMED = {
  "C07": dict(text=GEN + "Partial: weekday = (floor(JD+0.5)+1) mod 7 for every Julian date (Kani); day pillar = (day number + 49) mod 60 on the lunar-date route for every month start and day (engine B over the real index arithmetic, names via an axiomatised object model). Not covered: agreement of the three routes to the pillar (they run the solar->lunar walk over real month data).",
              note="Assumes: LunarMonth::get_first_julian_day arbitrary (ENV-A); object-model axioms A-index, A-name (lemma T60 + trusted first-match search), A-format, A-jd; +1 per civil day composes with C01 01.c on paper.",
              technique=ENGB + " + " + BMC),
- "C08": dict(text=GEN + "Partial: year pillar index (y-4) mod 60; month pillars obey the Five-Tigers rule on every route that builds them by index (lunar month, first month of a sexagenary year, sexagenary month stepping incl. the year carry), all years, engine B. Not covered: WHEN the pillars switch (Lichun / Jie days and instants) and the instant-level view.",
+ "C08": dict(text=GEN + "Partial: year pillar index (y-4) mod 60; month pillars obey the Five-Tigers rule on every route that builds them by index (lunar month, first month of a sexagenary year, sexagenary month stepping incl. the year carry), all years, engine B. the day view switches the year pillar on the Lichun day and the month pillar on each Jie day (given the date's term). Not covered: the instant-level view.",
              note="Assumes: object-model axioms A-index, A-pillar, A-name, A-format; struct invariants (index in year 0..12).",
              technique=ENGB),
- "C09": dict(text=GEN + "Partial: hour branch, Five-Rats stem and the 23:00 roll-over on the lunar-hour route for all 60 day pillars x 24 hours (engine B); refusal of invalid clock fields (Kani). Not covered: the instant-level view, the eight-character composition, the inverse search.",
+ "C09": dict(text=GEN + "Partial: hour branch, Five-Rats stem and the 23:00 roll-over on the lunar-hour route for all 60 day pillars x 24 hours (engine B); the instant-level view reports the next day's pillar from 23:00 with the matching hour pillar and switches year/month pillars at the term instants (engine B); refusal of invalid clock fields (Kani). Not covered: the eight-character composition, the inverse search.",
              note="Assumes: the day pillar is an arbitrary pillar here (its value is C07 07.c); object-model axioms A-index, A-pillar, A-name, A-format.",
              technique=ENGB + " + " + BMC),
  "C17": dict(text=GEN + "Partial: six-day star incl. leap months, moon phase, minor Ren, month nine star, 28 mansions (+1 per day, luminary = weekday), day officer, Yellow/Black-path spirits for days and hours — engine B over the real index arithmetic for all inputs. Not covered: flying nine star of year / day / hour.",
